@@ -118,6 +118,10 @@ class Emitter:
         self.self_struct = None
         self.join_id = 0
         self.pending = {}
+        # optional vocabulary key `drops`: destructors of temporaries (lock guards) that vocabulary callables have
+        # registered (`em.drops.append(callable(env, k))`); run at the end of the enclosing temporary scope
+        # (statement, match arm, tail expression of a block), see flush_drops
+        self.drops = []
         # every identifier the vocabulary mentions is reserved (a Rust variable of the same
         # name gets a numeric suffix), plus the combinators of Model/Base.v and Model/Imp.v
         import re
@@ -285,8 +289,17 @@ class Emitter:
                 e = e.recv
             elif e.kind == "mcall" and not e.args and e.name in self.v.get("transparent_places", ()):
                 e = e.recv
+            elif e.kind == "mcall" and not e.args and e.name in self.v.get("place_writers", {}):
+                e = e.recv
             else:
                 return None
+
+    def flush_drops(self, mark, env, k):
+        """run (innermost first) the destructors registered since `mark`, then k(env')"""
+        if len(self.drops) <= mark:
+            return k(env)
+        d = self.drops.pop()
+        return d(env, lambda env1: self.flush_drops(mark, env1, k))
 
     def field_info(self, sty, fname):
         if sty[0] != "struct":
@@ -309,6 +322,11 @@ class Emitter:
         if place.kind == "mcall" and not place.args and place.name in self.v.get("transparent_places", ()):
             # vocabulary `transparent_places`: methods that hand out a write-through view of their receiver
             return self.write_place(place.recv, term, env, k)
+        if place.kind == "mcall" and not place.args and place.name in self.v.get("place_writers", {}):
+            # optional vocabulary key `place_writers: {method: callable(em, place, term, env, k)}`: a method that hands
+            # out a view of a PART of its receiver (a lock guard over the writer inside a locked stream); the
+            # callable says how a new value of the view goes back into the receiver
+            return self.v["place_writers"][place.name](self, place, term, env, k)
         if place.kind == "path" and len(place.segs) == 1:
             name = place.segs[0]
             v = env.get(name)
@@ -927,12 +945,22 @@ class Emitter:
         return val
 
     def stmts(self, stmts, i, tail, env, k):
+        use_drops = bool(self.v.get("drops"))
         if i == len(stmts):
             if tail is None:
                 return k("tt", UNIT, env)
+            if use_drops:
+                # temporaries of the tail expression die when the block is left
+                mark_t = len(self.drops)
+                return self.expr(tail, env, lambda t, ty, env1: self.flush_drops(mark_t, env1, lambda env2: k(t, ty, env2)))
             return self.expr(tail, env, k)
         s = stmts[i]
         rest = lambda env1: self.stmts(stmts, i + 1, tail, env1, k)
+        if use_drops:
+            # temporaries of a statement die at its end
+            mark_s = len(self.drops)
+            rest0 = rest
+            rest = lambda env1: self.flush_drops(mark_s, env1, rest0)
         if s.kind in ("expr", "let") and getattr(s, "attrs", None):
             cs = self.cfg_static(s.attrs)
             if cs is False:
@@ -1059,6 +1087,13 @@ class Emitter:
             ent = self.borrow_entry(e.cond.e, env)
             if ent is not None:
                 return self.if_let_borrow(e, ent, env, k)
+        if e.cond.kind == "macro" and e.cond.name.split("::")[-1] == "cfg" and self.v.get("cfg_static"):
+            # `if cfg!(windows) { .. } else { .. }` with the predicate decided by the vocabulary (cfg_static): the
+            # code is translated for ONE configuration, only the branch that is compiled in is translated
+            key = "".join(t.text for t in e.cond.toks)
+            if key in self.v["cfg_static"]:
+                chosen = e.then if self.v["cfg_static"][key] else (e.els if e.els is not None else N("block", stmts=[], tail=None))
+                return self.expr(chosen, env, k)
         if e.cond.kind == "letcond":
             arms = [(e.cond.pat, None, e.then), (N("pwild"), None, e.els if e.els is not None else N("block", stmts=[], tail=None))]
             return self.e_match(N("match", scrut=e.cond.e, arms=arms), env, k)
@@ -1477,7 +1512,51 @@ class Emitter:
             raise EmitError("unknown constant %s" % "::".join(segs))
         return c[0]
 
+    def static_arms(self, e):
+        """`#[cfg(..)] Pat => ..`: with the vocabulary key cfg_static the arms that are compiled out are dropped
+        (an attribute cfg_static does not decide is an error); without it arm attributes are ignored, as before"""
+        aa = getattr(e, "arm_attrs", None)
+        if not aa or not any(aa) or not self.v.get("cfg_static"):
+            return e
+        arms = []
+        for arm, at in zip(e.arms, aa):
+            if any(a.replace(" ", "").startswith("#[cfg") for a in at):
+                cs = self.cfg_static(at)
+                if cs is None:
+                    raise EmitError("match arm under %s: not decided by the vocabulary (cfg_static)" % " ".join(at))
+                if cs is False:
+                    continue
+            arms.append(arm)
+        return N("match", scrut=e.scrut, arms=arms)
+
+    def arm_writeback(self, scr, p, binds, kk):
+        """optional vocabulary key `match_writeback`: `match &mut place { Enum::V(w) => .. }` binds `w` by
+        mutable reference INTO the place; when the arm body has assigned / mutated `w`, the place is rebuilt
+        from the constructor and the current values of the bound variables before the arm falls through"""
+        if not (self.v.get("match_writeback") and scr.kind == "unary" and scr.op == "&mut"):
+            return kk
+        while p.kind == "pref":
+            p = p.inner
+        if p.kind != "ptstruct" or not binds:
+            return kk
+        pv = self.payload_variant(p)
+        if pv is None or isinstance(pv[1], int) or len(binds) != len(p.elems):
+            return kk
+        ctor = pv[0]
+        orig = [(rn, cn) for rn, cn, _t, _m in binds]
+
+        def kk2(t, ty, benv):
+            cur = []
+            for rn, cn in orig:
+                v = benv.get(rn)
+                cur.append(v.coq if v is not None else cn)
+            if cur == [cn for _rn, cn in orig]:
+                return kk(t, ty, benv)
+            return self.write_place(scr.e, "(%s %s)" % (ctor, " ".join(cur)), benv, lambda env3: kk(t, ty, env3))
+        return kk2
+
     def e_match(self, e, env, k):
+        e = self.static_arms(e)
         scr = e.scrut
         comps = scr.elems if scr.kind == "tuple" else [scr]
 
@@ -1525,7 +1604,13 @@ class Emitter:
                         env2 = env1
                         for rn, cn, t, mut in binds:
                             env2 = env2.bind(rn, cn, t, mut)
-                        out.append("| %s =>\n%s" % (ps, ind(self.expr(body, env2, kk), 4)))
+                        kka = self.arm_writeback(scr, p, binds, kk) if len(comps) == 1 else kk
+                        if self.v.get("drops"):
+                            # a match arm is a temporary scope: its temporaries die before the arm is left
+                            kkb = kka
+                            mark_a = len(self.drops)
+                            kka = lambda t, ty, benv, kkb=kkb, mark_a=mark_a: self.flush_drops(mark_a, benv, lambda env3: kkb(t, ty, env3))
+                        out.append("| %s =>\n%s" % (ps, ind(self.expr(body, env2, kka), 4)))
                     out.append("end")
                     return "\n".join(out)
                 return self.join_branches(env1, k, build)
